@@ -227,36 +227,38 @@ Definition deep_clone (own : owner) (st src_site : site) (src_own : owner) (s : 
     let '(as_, c4) := alloc c2 FStruct (Ob own st FStruct) (px s FStruct) in
     (rd s FStruct ++ rd s FHdr ++ ah ++ rd s FPar ++ ap ++ as_, s, c4).
 
-(* concurrent middleware: attempts a = done .. done+todo-1 get deep clones, made one after
-   the other in the spawning goroutine while the earlier attempts already run; the last
-   attempt gets the request itself *)
-Fixpoint conc_loop (k : nat) (b : backend) (src_own : owner) (todo a : nat) (s : pst) : prog :=
+(* concurrent middleware (proxy/concurrent.go): EVERY attempt gets a deep clone, made one
+   after the other in the spawning goroutine while the earlier attempts already run; the
+   caller's request is only read (and its body re-buffered) by the spawning goroutine.
+   ls = true is the shape of the code before commit f5f9a56 (seeded patch
+   C04-revert-concurrent-own-copy): the last attempt runs on the caller's request itself. *)
+Fixpoint conc_loop (ls : bool) (k : nat) (b : backend) (src_own : owner) (todo a : nat) (s : pst) : prog :=
   match todo with
-  | O => [Fork (map Acc (inner_accs (WAt k a) b s))]
+  | O => if ls then [Fork (map Acc (inner_accs (WAt k a) b s))] else []
   | S n =>
       let '(ac, s', c) := deep_clone (WAt k a) SConc (SConcSrc a) src_own s in
-      map Acc ac ++ Fork (map Acc (inner_accs (WAt k a) b c)) :: conc_loop k b src_own n (S a) s'
+      map Acc ac ++ Fork (map Acc (inner_accs (WAt k a) b c)) :: conc_loop ls k b src_own n (S a) s'
   end.
 
 (* one backend's stack, entered with the pipeline state s *)
-Definition branch_prog (k : nat) (src_own : owner) (b : backend) (s : pst) : prog :=
+Definition branch_prog (ls : bool) (k : nat) (src_own : owner) (b : backend) (s : pst) : prog :=
   let '(a, s1) := rb_stage b s in
   match b_cc b with
   | O | S O => map Acc (a ++ inner_accs (WAt k 0) b s1)
-  | S n => map Acc a ++ conc_loop k b src_own n 0 s1
+  | S n => map Acc a ++ conc_loop ls k b src_own (if ls then n else S n) 0 s1
   end.
 
 (* parallelMerge: clone k is made in the parent right before `go requestPart(...)` *)
-Fixpoint merge_loop (deep : bool) (bs : list backend) (k : nat) (s : pst) : prog :=
+Fixpoint merge_loop (ls deep : bool) (bs : list backend) (k : nat) (s : pst) : prog :=
   match bs with
   | [] => []
   | b :: r =>
       if deep then
         let '(ac, s', c) := deep_clone (WBr k) SMerge (SMergeSrc k) WEnd s in
-        map Acc ac ++ Fork (branch_prog k (WBr k) b c) :: merge_loop deep r (S k) s'
+        map Acc ac ++ Fork (branch_prog ls k (WBr k) b c) :: merge_loop ls deep r (S k) s'
       else
         let '(ac, c) := shallow_clone (Ob (WBr k) SMerge FStruct) s in
-        map Acc ac ++ Fork (branch_prog k (WBr k) b c) :: merge_loop deep r (S k) s
+        map Acc ac ++ Fork (branch_prog ls k (WBr k) b c) :: merge_loop ls deep r (S k) s
   end.
 
 Definition orig (f : field) : obj := Ob WEnd SOrig f.
@@ -277,12 +279,13 @@ Definition init_heap (q : request) : obj -> val :=
            end.
 
 (* the whole processing of one request by defaultFactory.New(cfg) (parallel merge) *)
-Definition endpoint_prog (cfg : config) (q : request) : prog :=
+Definition endpoint_prog_gen (ls : bool) (cfg : config) (q : request) : prog :=
   match cfg with
   | [] => []
-  | [b] => branch_prog 0 WEnd b (init_pst q)
-  | _ => merge_loop (has_unsafe cfg) cfg 0 (init_pst q)
+  | [b] => branch_prog ls 0 WEnd b (init_pst q)
+  | _ => merge_loop ls (has_unsafe cfg) cfg 0 (init_pst q)
   end.
+Definition endpoint_prog : config -> request -> prog := endpoint_prog_gen false.
 
 Definition race_free_b (cfg : config) (q : request) : bool :=
   race_free obj_eqb (endpoint_prog cfg q).
